@@ -121,6 +121,7 @@ impl Ctx {
     pub fn log(&self, line: impl FnOnce() -> String) {
         let mut g = self.lock();
         let s = line();
+        let s = if std::env::var_os("VERIF_TRACE_POS").is_some() { format!("[t{} {:x}] {}", g.tape.consumed(), g.tape.shape & 0xffff, s) } else { s };
         g.digest.write_str(&s);
         if g.log_enabled {
             g.log.push(s);
@@ -134,6 +135,11 @@ impl Ctx {
 
     pub fn count_n(&self, key: &'static str, n: u64) {
         *self.lock().stats.entry(key).or_insert(0) += n;
+    }
+
+    /// A milestone of the run (see `Tape::mark`).
+    pub fn mark(&self, tag: u64) {
+        self.lock().tape.mark(tag);
     }
 
     /// Feeds the run signature (distinct-interleaving measure).
@@ -168,5 +174,125 @@ impl Ctx {
     pub fn advance(&self, dt: u64) {
         let mut g = self.lock();
         g.sched.now += dt;
+    }
+}
+
+
+// ------------------------------------------------------------------ baton --
+//
+// Blocking calls "in flight at once" need real threads. They are released one at a time: a
+// thread runs until it reaches a seam of the simulation (a body chunk is requested, bytes are
+// written, a request is handed to the transport, a handler is entered), where the tape decides
+// which thread continues. Exactly one thread runs at any moment, so a run is still a pure
+// function of its tape.
+
+pub struct Baton {
+    m: Mutex<BatonState>,
+    cv: std::sync::Condvar,
+}
+
+struct BatonState {
+    active: usize,
+    alive: Vec<bool>,
+}
+
+thread_local! {
+    static SLOT: std::cell::RefCell<Option<(Arc<Baton>, usize, Ctx)>> = const { std::cell::RefCell::new(None) };
+}
+
+/// Real-time bound on waiting for the baton: only a deadlock inside the code under test (a
+/// thread blocked on a lock of the code under test while another holds it across a seam) gets here.
+const BATON_TIMEOUT: std::time::Duration = std::time::Duration::from_secs(30);
+
+impl Baton {
+    pub fn new(n: usize) -> Arc<Baton> {
+        Arc::new(Baton {
+            m: Mutex::new(BatonState {
+                active: usize::MAX,
+                alive: vec![true; n],
+            }),
+            cv: std::sync::Condvar::new(),
+        })
+    }
+
+    fn lock(&self) -> MutexGuard<'_, BatonState> {
+        match self.m.lock() {
+            Ok(g) => g,
+            Err(p) => p.into_inner(),
+        }
+    }
+
+    fn wait_for(&self, mut st: MutexGuard<'_, BatonState>, me: usize) {
+        while st.active != me {
+            let (g, t) = match self.cv.wait_timeout(st, BATON_TIMEOUT) {
+                Ok(x) => x,
+                Err(p) => p.into_inner(),
+            };
+            st = g;
+            if t.timed_out() && st.active != me {
+                eprintln!(
+                    "HARNESS: blocking threads deadlocked: thread {} has held the baton for {:?} without reaching a seam (thread {} is waiting)",
+                    st.active, BATON_TIMEOUT, me
+                );
+                std::process::exit(2);
+            }
+        }
+    }
+
+    /// The first thing a worker does: adopt slot `me` and wait to be chosen.
+    pub fn enter(self: &Arc<Baton>, me: usize, ctx: &Ctx) {
+        SLOT.with(|s| *s.borrow_mut() = Some((self.clone(), me, ctx.clone())));
+        let st = self.lock();
+        self.wait_for(st, me);
+    }
+
+    /// The main thread releases the first worker.
+    pub fn start(&self, ctx: &Ctx) {
+        let mut st = self.lock();
+        let n = st.alive.len() as u64;
+        st.active = ctx.draw(n) as usize;
+        let a = st.active;
+        ctx.log(|| format!("threads: {} start with thread {}", n, a));
+        self.cv.notify_all();
+    }
+
+    /// The last thing a worker does.
+    pub fn leave(&self, me: usize, ctx: &Ctx) {
+        SLOT.with(|s| *s.borrow_mut() = None);
+        let mut st = self.lock();
+        st.alive[me] = false;
+        let alive: Vec<usize> = (0..st.alive.len()).filter(|i| st.alive[*i]).collect();
+        if !alive.is_empty() {
+            st.active = alive[ctx.draw(alive.len() as u64) as usize];
+            let a = st.active;
+            ctx.log(|| format!("threads: thread {} done, thread {} continues", me, a));
+        }
+        self.cv.notify_all();
+    }
+
+    fn switch(&self, me: usize, ctx: &Ctx) {
+        let mut st = self.lock();
+        let alive: Vec<usize> = (0..st.alive.len()).filter(|i| st.alive[*i]).collect();
+        if alive.len() <= 1 {
+            return;
+        }
+        let pick = alive[ctx.draw(alive.len() as u64) as usize];
+        ctx.count("sched.thread_seam_points");
+        if pick != me {
+            ctx.count("sched.thread_switches");
+            ctx.log(|| format!("threads: {} -> {}", me, pick));
+            st.active = pick;
+            self.cv.notify_all();
+            self.wait_for(st, me);
+        }
+    }
+}
+
+/// A seam of the simulation was reached: under the baton, the tape decides who continues.
+/// A no-op on threads that do not run under a baton.
+pub fn seam() {
+    let slot = SLOT.with(|s| s.borrow().as_ref().map(|(b, me, ctx)| (b.clone(), *me, ctx.clone())));
+    if let Some((b, me, ctx)) = slot {
+        b.switch(me, &ctx);
     }
 }
